@@ -110,8 +110,11 @@ def run_hypothesis(prop, sc, tier, seed, examples, stats):
               verbosity=Verbosity.quiet)
     @given(sc.strategy(tier))
     def test(case):
-        previous = list(state["prev"])
-        state["prev"] = (state["prev"] + [case])[-8:]
+        previous = state["prev"] if state["first"] is not None else list(state["prev"])
+        if state["first"] is None:
+            state["prev"].append(case)
+            if len(state["prev"]) > 128:
+                del state["prev"][0]
         out = evaluate_guarded(sc, case)
         if state["first"] is None:
             stats.record(case, out)
@@ -148,7 +151,9 @@ def run_hypothesis(prop, sc, tier, seed, examples, stats):
                 break
         if chosen is None and state["prelude"]:
             # not reproducible from one case: state carried between calls - replay the preceding cases first
-            for start in range(len(state["prelude"]) - 1, -1, -1):
+            # (windows of the last 1, 2, 4, ... 128 cases; the shortest window that reproduces is stored)
+            lengths = sorted({min(2 ** i, len(state["prelude"])) for i in range(8)})
+            for start in [len(state["prelude"]) - n for n in lengths]:
                 for earlier in state["prelude"][start:]:
                     evaluate_guarded(sc, earlier)
                 out = evaluate_guarded(sc, state["first"][0])
@@ -346,7 +351,9 @@ def main(argv):
         for shard in range(nshards):
             tasks.append((prop, sub_idx, shard, nshards, tier, base_seed))
     context = multiprocessing.get_context("fork")
-    with context.Pool(processes=min(CORES, len(tasks))) as pool:
+    # every (sub-check, shard) task gets a freshly forked worker: library state carried between calls stays inside
+    # one task, where the prelude of a replay file can reproduce it
+    with context.Pool(processes=min(CORES, len(tasks)), maxtasksperchild=1) as pool:
         results = list(pool.imap_unordered(run_task, tasks, chunksize=1))
 
     merged = {}
